@@ -670,7 +670,9 @@ func init() {
 						out[i] = strings.ToLower(string(rune(bb)))[0]
 					}
 				case symInt:
-					if !st.mustHold("(bvult " + bb.t + " #x80)") {
+					// a byte that may be part of a multi-byte rune: the ASCII case goes on (exact per-byte mapping),
+					// the non-ASCII case ends as unsupported (inconclusive for those inputs only)
+					if !st.branch("(bvult " + bb.t + " #x80)") {
 						panic(unsupported("case mapping of symbolic byte that may be non-ASCII"))
 					}
 					if upper {
